@@ -2,7 +2,8 @@
 
 Heap model: Engine / Defer / Store / Process objects are references; their fields live in heap arrays.
 Ghost ledger (fields g_* of Defer objects, assigned only by ghost code below):
-    g_issued   the Defer was created by _process_update for a process update
+    g_live     the Defer was created by _process_update (its result may be collected once)
+    g_issued   it was stored in the front by run_for with a due time (scheduling ledger)
     g_empty    it is an EmptyDefer (quiet marker)
     g_path     path of the process it belongs to
     g_start    front time of the process when it was invoked
@@ -11,10 +12,11 @@ Ghost ledger (fields g_* of Defer objects, assigned only by ghost code below):
     g_consumed Defer.get() has been called (the update was handed to apply_update)
     g_at       global time at which it was consumed
 """
-from pyvc.spec import contract, external, model_class, union, typedef
+from pyvc.spec import contract, external, model_class, union, typedef, bound_types
 from specs.lib_path import *   # noqa: F401,F403
 
 E = 'vivarium.core.engine:'
+bound_types(d='Ref[Defer]', p='Path', i='Int', j='Int', k='Path')
 
 union('Upd', empty='EmptyDict', pending='Tup[Ref[Defer],Ref[Store]]')
 typedef('Front', 'Rec{time:Real,update:Upd}')
@@ -22,14 +24,16 @@ typedef('Front', 'Rec{time:Real,update:Upd}')
 model_class('Store', fields={'topology': 'Tree', 'topology_view': 'Opt[Tree]', 'value': 'Val'})
 model_class('Process', fields={'g_pending': 'Bool'})
 model_class('Defer', fields={'defer': 'Opt[Ref[Process]]', 'args': 'Tup[Path,Tree]'},
-            ghost={'g_issued': 'Bool', 'g_empty': 'Bool', 'g_path': 'Path', 'g_start': 'Real', 'g_due': 'Real',
+            ghost={'g_live': 'Bool', 'g_issued': 'Bool', 'g_empty': 'Bool', 'g_path': 'Path', 'g_start': 'Real', 'g_due': 'Real',
                    'g_dt': 'Real', 'g_consumed': 'Bool', 'g_at': 'Real'})
 model_class('EmptyDefer', fields={}, bases=['Defer'])
 model_class('Engine', fields={
     'global_time': 'Real', 'emit_step': 'Real', 'global_time_precision': 'Opt[Int]', 'progress_bar': 'Bool',
+    'display_info': 'Bool',
     'front': 'Map[Path,Front]', 'process_paths': 'Map[Path,Ref[Process]]', 'state': 'Ref[Store]',
-    '_step_paths': 'Map[Path,Ref[Process]]'},
-    ghost={'g_version': 'Int', 'g_emits': 'Seq[Real]', 'g_steps_run': 'Int'})
+    '_step_paths': 'Map[Path,Ref[Process]]', '_step_graph': 'Ref[_StepGraph]'},
+    ghost={'g_version': 'Int', 'g_emits': 'Seq[Real]', 'g_steps_run': 'Int', 'g_views_valid': 'Bool'})
+model_class('_StepGraph', fields={'_sequential_steps': 'Seq[Path]'})
 
 contract(E + 'empty_front', props=['C01', 'C02', 'C10'],
          types={'t': 'Real', 'ret': 'Front'},
@@ -62,6 +66,7 @@ external(P + 'Process.update_condition',
          why_trusted='user code: pure with respect to engine state')
 external(E + 'Engine._process_state',
          types={'path': 'Path', 'ret': 'Tup[Ref[Store],Tree]'},
+         requires=['self.g_views_valid'],      # C07/C04: a process is only ever shown views of the current hierarchy
          ensures=['allocated(ret[0])'],
          why_trusted='Store navigation + view_values (schema-driven Store code): bounded-checked under C06/C07')
 external(E + 'Engine._emit_store_data',
@@ -71,21 +76,24 @@ external(E + 'Engine._emit_store_data',
          why_trusted='emitter side (Store.emit_data, Emitter.emit) is bounded-checked under C12; ghost log of emit times')
 external(E + 'Engine.apply_update',
          types={'update': 'Tree', 'state': 'Ref[Store]', 'ret': 'Bool'},
-         modifies=['self.process_paths', 'self._step_paths', 'self.g_version'],
-         ensures=['self.g_version == old(self.g_version) + 1'],
-         why_trusted='its own bookkeeping contract is verified separately (C10); here only the frame: it never touches '
-                     'front, global_time or the ledger')
+         modifies=['self.process_paths', 'self._step_paths', 'self.g_version', 'self.g_views_valid'],
+         ensures=['self.g_version >= old(self.g_version)',
+                  'self.g_views_valid == (old(self.g_views_valid) and not ret)'],
+         why_trusted='its own bookkeeping is treated under C10; here the frame (it never touches front, global_time or the '
+                     'ledger) and the meaning of its result: True iff the applied update expired the topology views '
+                     '(Store.apply_update reports view_expire for every structural key: bounded-checked under C07)')
 
 contract(E + 'EmptyDefer.__init__', props=['C01'],
          types={}, alloc=True,
-         modifies=['self.g_empty', 'self.g_issued', 'self.g_consumed'],
-         ensures=['self.g_empty', 'not self.g_issued', 'not self.g_consumed'],
+         modifies=['self.g_empty', 'self.g_issued', 'self.g_consumed', 'self.g_live'],
+         ensures=['self.g_empty', 'not self.g_issued', 'not self.g_consumed', 'not self.g_live'],
          trusted=True, why_trusted='constructor glue (super().__init__ with a nested function); ghost tags only')
 
 contract(E + 'Defer.__init__', props=['C01'],
          types={'defer': 'Opt[Ref[Process]]', 'f': 'Fun[Tree,Tup[Path,Tree]->Tree]', 'args': 'Tup[Path,Tree]'}, alloc=True,
-         modifies=['self.defer', 'self.args', 'self.g_empty', 'self.g_issued', 'self.g_consumed'],
-         ensures=['self.defer == defer', 'self.args == args', 'not self.g_empty', 'not self.g_issued', 'not self.g_consumed'],
+         modifies=['self.defer', 'self.args', 'self.g_empty', 'self.g_issued', 'self.g_consumed', 'self.g_live'],
+         ensures=['self.defer == defer', 'self.args == args', 'not self.g_empty', 'not self.g_issued', 'not self.g_consumed',
+                  'not self.g_live'],
          trusted=True, why_trusted='plain field initialisation (the function-valued field f is not modelled)')
 
 external(E + '_invoke_process',
@@ -98,12 +106,13 @@ contract(E + '_process_update', props=['C01', 'C02', 'C13'],
          types={'path': 'Path', 'process': 'Ref[Process]', 'store': 'Ref[Store]', 'states': 'Tree', 'interval': 'Real',
                 'ret': 'Tup[Ref[Defer],Ref[Store]]', 'absolute': 'Ref[Defer]'},
          modifies=['Process.g_pending', 'Defer.defer', 'Defer.args', 'Defer.g_empty', 'Defer.g_issued', 'Defer.g_consumed',
-                   'Defer.g_path', 'Defer.g_dt'],
+                   'Defer.g_path', 'Defer.g_dt', 'Defer.g_live'],
          alloc=True,
-         ensures=['ret[1] == store', 'fresh(ret[0])', 'ret[0].g_issued', 'not ret[0].g_consumed', 'not ret[0].g_empty',
+         ensures=['ret[1] == store', 'fresh(ret[0])', 'allocates(1)', 'ret[0].g_live', 'not ret[0].g_issued', 'not ret[0].g_consumed',
+                  'not ret[0].g_empty',
                   'ret[0].g_path == path', 'ret[0].g_dt == interval',
                   "unchanged_except('Defer', ret[0])"],
-         ghost={'absolute = Defer(': {'after': ['absolute.g_issued = True', 'absolute.g_path = path',
+         ghost={'absolute = Defer(': {'after': ['absolute.g_live = True', 'absolute.g_path = path',
                                                  'absolute.g_dt = interval']}})
 
 S_ = 'vivarium.core.store:'
@@ -112,36 +121,88 @@ external(S_ + 'Store.build_topology_views', types={}, modifies=['Store.topology_
 
 external(E + 'Defer.get',
          types={'ret': 'Tree'},
-         requires=['self.g_empty or (self.g_issued and not self.g_consumed)'],
+         requires=['self.g_empty or (self.g_live and not self.g_consumed)'],
          modifies=['self.g_consumed', 'Process.g_pending'],
          ensures=['self.g_consumed'],
          why_trusted='behavioural contract of Defer.get / EmptyDefer.get: calls the function-valued field f on '
                      'defer.get_command_result(); exactly-once use is what the callers are verified against')
 
-external(E + 'Engine.run_steps', types={},
-         modifies=['self.process_paths', 'self._step_paths', 'self.g_version', 'self.g_steps_run', 'Store.topology_view',
-                   'Process.g_pending'],
-         ensures=['self.g_steps_run == old(self.g_steps_run) + 1'],
-         why_trusted='frame + phase counter only; the step discipline itself is verified under C05')
+external(E + '_StepGraph.get_execution_layers', types={'ret': 'Seq[Seq[Path]]'},
+         why_trusted='networkx topological_generations + sorted: the layering itself is bounded-checked under C05')
+
+contract(E + 'Engine._calculate_update', props=['C05', 'C01', 'C07'],
+         types={'path': 'Path', 'process': 'Ref[Process]', 'interval': 'Real', 'store': 'Ref[Store]', 'states': 'Tree',
+                'ret': 'Tup[Ref[Defer],Ref[Store]]'},
+         requires=['self.g_views_valid'],
+         modifies=['Process.g_pending', 'Defer.defer', 'Defer.args', 'Defer.g_empty', 'Defer.g_issued', 'Defer.g_consumed',
+                   'Defer.g_path', 'Defer.g_dt', 'Defer.g_live'],
+         alloc=True,
+         ensures=['fresh(ret[0])', 'allocates(1)', 'ret[0].g_empty or (ret[0].g_live and not ret[0].g_consumed)', 'not ret[0].g_issued',
+                  "unchanged_except('Defer', ret[0])"])
+
+DU = "deferred_updates[%s][0]"
+NEW_NOT_ISSUED = "forall(lambda d: implies(fresh(d), not d.g_issued))"    # step tokens never enter the scheduling ledger
+contract(E + 'Engine.run_steps', props=['C05', 'C04', 'C07'],
+         types={'layers': 'Seq[Seq[Path]]', 'layer': 'Seq[Path]', 'deferred_updates': 'Seq[Tup[Ref[Defer],Ref[Store]]]',
+                'path': 'Path', 'step': 'Opt[Ref[Process]]', 'update': 'Ref[Defer]', 'store': 'Ref[Store]',
+                'view_expire': 'Bool', 'view_expire_update': 'Bool', 'i': 'Int', 'j': 'Int'},
+         requires=['self.g_views_valid'],
+         modifies=['self.process_paths', 'self._step_paths', 'self.g_version', 'self.g_steps_run', 'self.g_views_valid',
+                   'Store.topology_view', 'Process.g_pending', 'Defer.defer', 'Defer.args', 'Defer.g_empty',
+                   'Defer.g_issued', 'Defer.g_consumed', 'Defer.g_path', 'Defer.g_dt', 'Defer.g_live'],
+         alloc=True,
+         ensures=['self.g_views_valid',                                      # views are current again when the phase ends
+                  'self.g_steps_run == old(self.g_steps_run) + 1',
+                  "old_objects_unchanged('Defer')", NEW_NOT_ISSUED],                          # only tokens created in this phase are touched
+         loops={
+             0: {'invariant': ['self.g_views_valid', 'self.g_steps_run == old(self.g_steps_run) + 1',
+                               "old_objects_unchanged('Defer')", NEW_NOT_ISSUED]},
+             # computing a layer: no update is applied in between (g_version frozen): all steps of the layer see one state
+             1: {'invariant': ['self.g_views_valid', 'self.g_version == entry(self.g_version)',
+                               'self.g_steps_run == old(self.g_steps_run) + 1', "old_objects_unchanged('Defer')",
+                               "forall_range(0, len(deferred_updates), lambda i: fresh(%s))" % (DU % 'i'),
+                               "forall_range(0, len(deferred_updates), lambda i: allocated(%s) and (%s.g_empty or "
+                               "(%s.g_live and not %s.g_consumed)))" % ((DU % 'i',) * 4),
+                               "forall_range(0, len(deferred_updates), lambda i: forall_range(0, i, lambda j: %s != %s))"
+                               % (DU % 'i', DU % 'j'), NEW_NOT_ISSUED]},
+             # applying the layer: each deferred update is collected exactly once
+             2: {'invariant': ['self.g_steps_run == old(self.g_steps_run) + 1', "old_objects_unchanged('Defer')",
+                               "forall_range(0, len(deferred_updates), lambda i: fresh(%s))" % (DU % 'i'),
+                               'self.g_views_valid == (entry(self.g_views_valid) and not view_expire)',
+                               "forall_range(_i, len(deferred_updates), lambda i: allocated(%s) and (%s.g_empty or "
+                               "(%s.g_live and not %s.g_consumed)))" % ((DU % 'i',) * 4),
+                               "forall_range(0, len(deferred_updates), lambda i: forall_range(0, i, lambda j: %s != %s))"
+                               % (DU % 'i', DU % 'j'), NEW_NOT_ISSUED]},
+         },
+         ghost={'self.state.build_topology_views()': {'after': ['self.g_views_valid = True']},
+                'layers = self._step_graph.get_execution_layers()': {'after': ['self.g_steps_run = self.g_steps_run + 1']}})
 
 TOK = "alt(update_tuples[%s], 'pending')[0]"
 contract(E + 'Engine._send_updates', props=['C01', 'C05', 'C12'],
          types={'update_tuples': 'Seq[Upd]', 'update_tuple': 'Upd', 'update': 'Ref[Defer]', 'state': 'Ref[Store]',
                 'view_expire': 'Bool', 'view_expire_update': 'Bool', 'i': 'Int', 'j': 'Int', 'd': 'Ref[Defer]'},
-         requires=["forall_range(0, len(update_tuples), lambda i: is_alt(update_tuples[i], 'pending'))",
-                   "forall_range(0, len(update_tuples), lambda i: allocated(%s) and (%s.g_empty or (%s.g_issued and "
+         requires=['self.g_views_valid',
+                   "forall_range(0, len(update_tuples), lambda i: is_alt(update_tuples[i], 'pending'))",
+                   "forall_range(0, len(update_tuples), lambda i: allocated(%s) and (%s.g_empty or (%s.g_live and "
                    "not %s.g_consumed and %s.g_due == self.global_time)))" % ((TOK % 'i',) * 5),
                    "forall_range(0, len(update_tuples), lambda i: forall_range(0, i, lambda j: %s != %s))" % (TOK % 'i', TOK % 'j')],
          modifies=['Defer.g_consumed', 'Defer.g_at', 'self.process_paths', 'self._step_paths', 'self.g_version',
-                   'self.g_steps_run', 'Store.topology_view', 'Process.g_pending'],
-         ensures=["forall_range(0, len(update_tuples), lambda i: %s.g_consumed and %s.g_at == self.global_time)" % ((TOK % 'i',) * 2),
-                  "forall(lambda d: implies(not exists_range(0, len(update_tuples), lambda i: d == %s), "
+                   'self.g_steps_run', 'self.g_views_valid', 'Store.topology_view', 'Process.g_pending', 'Defer.defer',
+                   'Defer.args', 'Defer.g_empty', 'Defer.g_issued', 'Defer.g_path', 'Defer.g_dt', 'Defer.g_live'],
+         alloc=True,
+         ensures=['self.g_views_valid',
+                  "forall_range(0, len(update_tuples), lambda i: %s.g_consumed and %s.g_at == self.global_time)" % ((TOK % 'i',) * 2),
+                  "forall(lambda d: implies(old(allocated(d)) and not exists_range(0, len(update_tuples), lambda i: d == %s), "
                   "d.g_consumed == old(d.g_consumed) and d.g_at == old(d.g_at)))" % (TOK % 'i'),
+                  "old_objects_unchanged('Defer', 'g_issued', 'g_empty', 'g_path', 'g_dt', 'g_start', 'g_due', 'g_live')",
+                  NEW_NOT_ISSUED,
                   'self.g_steps_run == old(self.g_steps_run) + 1'],
          loops={0: {'invariant': [
              "forall_range(0, _i, lambda i: %s.g_consumed and %s.g_at == self.global_time)" % ((TOK % 'i',) * 2),
              "forall_range(_i, len(update_tuples), lambda i: %s.g_consumed == old(%s.g_consumed))" % ((TOK % 'i',) * 2),
              "forall(lambda d: implies(not exists_range(0, len(update_tuples), lambda i: d == %s), "
              "d.g_consumed == old(d.g_consumed) and d.g_at == old(d.g_at)))" % (TOK % 'i'),
-             'self.g_steps_run == old(self.g_steps_run)', 'self.global_time == old(self.global_time)']}},
-         ghost={'view_expire_update = self.apply_update(': {'after': ['update.g_at = self.global_time']}})
+             'self.g_steps_run == old(self.g_steps_run)', 'self.global_time == old(self.global_time)',
+             'self.g_views_valid == (old(self.g_views_valid) and not view_expire)']}},
+         ghost={'view_expire_update = self.apply_update(': {'after': ['update.g_at = self.global_time']},
+                'self.state.build_topology_views()': {'after': ['self.g_views_valid = True']}})
